@@ -19,7 +19,12 @@ RULE = (
     "calendar/ordinal/week date, time form at p's precision, zone template "
     "+hh:mm/+hhmm/+hh or literal Z / literal offset), applied through "
     "TimePointDumper.dump or the dump_format attribute; parse(dump) must "
-    "denote the same instant (vlib.refcal). Non-trivial = expanded/negative "
+    "denote the same instant (vlib.refcal); at the edge of the agreed digits "
+    "(the view's year - calendar year or ISO week-year in the format's zone "
+    "- differs from the stored one) the dump may instead be refused with "
+    "TimePointDumperBoundsError, and only when that year does not fit. One "
+    "format case in five starts from an edge point (midnight on a month / "
+    "year / leap-day edge, dumped in a zone on the other side). Non-trivial = expanded/negative "
     "year, non-calendar representation, decimal form, 24:00, or a non-zero-"
     "minute or negative offset; distinct by case digest.")
 ASSUMPTIONS = [
@@ -47,6 +52,28 @@ ZONE_TEMPLATES = {"extended": ["+hh:mm", "+hh"], "basic": ["+hhmm", "+hh"]}
 def parsers():
     from metomi.isodatetime import parsers as P
     return P
+
+
+def view_year(cm, kw, fmt):
+    """The year a custom format has to print: calendar / ordinal year or ISO
+    week-year of the point's date as seen in the format's zone."""
+    import re
+    tz = M.kw_tz(kw)
+    m = re.search(r"(Z|[+-]\d\d(?::?\d\d)?)$", fmt)
+    if m:
+        z = m.group(1)
+        if z == "Z":
+            tz = 0
+        else:
+            sg = -1 if z[0] == "-" else 1
+            digits = z[1:].replace(":", "")
+            tz = sg * (int(digits[:2]) * 3600 + int(digits[2:] or 0) * 60)
+    local = M.kw_instant(cm, kw) + tz
+    dns = {local.numerator // (local.denominator * 86400)}
+    if kw.get("hour_of_day") == 24:
+        dns.add(M.kw_dn(cm, kw))    # 24:00 printed on the day as written
+    return sorted(R.week_from_dn(cm, dn)[0] if "Www" in fmt else
+                  R.cal_from_dn(cm, dn)[0] for dn in dns)
 
 
 def check_case(case):
@@ -98,13 +125,31 @@ def check_case(case):
                                     M.fmt_kw(kw)))
             else:
                 fmt = case["fmt"]
-                if case["via"] == "dump_format":
-                    p = M.make_point(dict(kw, dump_format=fmt))
-                    s = str(p)
-                else:
-                    p = M.make_point(kw)
-                    s = M.lib().dumpers.TimePointDumper(
-                        num_expanded_year_digits=xd).dump(p, fmt)
+                try:
+                    if case["via"] == "dump_format":
+                        p = M.make_point(dict(kw, dump_format=fmt))
+                        s = str(p)
+                    else:
+                        p = M.make_point(kw)
+                        s = M.lib().dumpers.TimePointDumper(
+                            num_expanded_year_digits=xd).dump(p, fmt)
+                except M.lib().dumpers.TimePointDumperBoundsError as e:
+                    if True:
+                        # a refusal is right exactly when the year this view
+                        # has to print does not fit the format's digits
+                        vys = view_year(cm, kw, fmt)
+                        top = 10 ** (4 + xd) - 1
+                        fits = all((0 <= vy <= 9999) if xd == 0 else
+                                   abs(vy) <= top for vy in vys)
+                        vy = vys[0]
+                        if fits:
+                            return Outcome(
+                                fail="format_refused: mode %s %s dumped with %r"
+                                " raised %s although the year to print is %d" % (
+                                    mode, M.fmt_kw(kw), fmt, e, vy),
+                                nontrivial=True, classes=classes)
+                        return Outcome(nontrivial=True, classes=classes + [
+                            "format/year_outside_digits_refused"])
                 q = parser.parse(s)
                 nq = M.Native(cm, q, allow24=True)
                 ip = M.kw_instant(cm, kw)
@@ -194,11 +239,6 @@ def st_case(draw):
                 zone = "%s%02d%02d" % (sg, abs(h), abs(m))
             if m == 0 and draw(st.booleans()):
                 zone = "%s%02d" % (sg, abs(h))
-        if drep != M.kw_rep(kw) or zk in ("Z", "literal"):
-            # the printed year may differ from the stored one: stay clear of
-            # the edge of the agreed digits
-            if abs(kw["year"]) >= top - 1 or (xd == 0 and kw["year"] < 2):
-                drep, zk, zone = M.kw_rep(kw), "template", ZONE_TEMPLATES[nota][0]
         case["fmt"] = (("+X" if xd else "") + DATE_FMT[(drep, nota)] + "T" +
                        draw(st.sampled_from(TIME_FMT[tkey][nota])) + zone)
         case["zone_kind"] = zk
